@@ -155,7 +155,6 @@ func cmdProve(args []string) {
 	}
 }
 
-func cmdSelftest(args []string) { fmt.Println("not yet") }
 
 func init() {
 	if os.Getenv("RJV_DEBUG_CONTRACTS") != "" {
